@@ -137,7 +137,12 @@ func (f *Fosite) DefaultClientAuthenticationStrategy(ctx context.Context, r *htt
 			var e *jwt.ValidationError
 			if errors.As(err, &e) {
 				if e.Inner != nil {
-					return nil, e.Inner
+					// only errors that were already turned into an RFC 6749 error are passed on as they are
+					var rfcErr *RFC6749Error
+					if errors.As(e.Inner, &rfcErr) {
+						return nil, e.Inner
+					}
+					return nil, errorsx.WithStack(ErrInvalidClient.WithHint("Unable to verify the 'client_assertion' because its claims could not be validated, check if the expiry time is set correctly.").WithWrap(e.Inner).WithDebug(e.Inner.Error()))
 				}
 				return nil, errorsx.WithStack(ErrInvalidClient.WithHint("Unable to verify the integrity of the 'client_assertion' value.").WithWrap(err).WithDebug(err.Error()))
 			}
